@@ -130,3 +130,42 @@ Proof.
   - apply Rmult_le_pos; [lra|]. left. apply Rinv_0_lt_compat. exact Hd.
   - apply (Rmult_le_reg_r (1 - exp (- lambda))); [exact Hd|]. unfold Rdiv. rewrite Rmult_assoc, Rinv_l by lra. lra.
 Qed.
+
+(* ------------------------------------------------------------------ *)
+(* the control flow of ExpRestricted01::sample (template-matched by translate/tr_exp01.py) over the reals:
+   first try  x = c1 * u0, returned if < 1;  then rounds on two unit draws (ux, uy) *)
+Inductive round_result := Accept (x : R) | Reject.
+
+Definition first_try (lambda u0 : R) : option R :=
+  let x := exp01_c1 lambda * u0 in if Rlt_dec x 1 then Some x else None.
+
+Lemma or3_dec (P Q S : Prop) : {P} + {~ P} -> {Q} + {~ Q} -> {S} + {~ S} -> {P \/ Q \/ S} + {~ (P \/ Q \/ S)}.
+Proof. intros [p|np] [q|nq] [s|ns]; try (left; tauto); right; tauto. Defined.
+
+(* each generated test is an inequality a <= b, whatever its two sides are *)
+Definition accepted_dec (lambda x y : R) :
+  {exp01_test1 lambda x y \/ exp01_test2 lambda x y \/ exp01_test3 lambda x y} +
+  {~ (exp01_test1 lambda x y \/ exp01_test2 lambda x y \/ exp01_test3 lambda x y)}.
+Proof. apply or3_dec; [unfold exp01_test1|unfold exp01_test2|unfold exp01_test3]; apply Rle_dec. Defined.
+
+Definition one_round (lambda ux uy : R) : round_result :=
+  if Rlt_dec ux (exp01_c2 lambda) then Accept ux else
+  let y0 := (5 / 10) * uy in
+  let x := if Rlt_dec (1 - ux) y0 then 1 - ux else ux in
+  let y := if Rlt_dec (1 - ux) y0 then 1 - y0 else y0 in
+  if accepted_dec lambda x y then Accept x else Reject.
+
+(* every value the sampler can return lies in [0,1), for every rate and all unit draws *)
+Theorem exp01_first_try_range lambda u0 x : 0 < lambda -> 0 <= u0 < 1 -> first_try lambda u0 = Some x -> 0 <= x < 1.
+Proof.
+  intros Hl Hu. unfold first_try. destruct (Rlt_dec (exp01_c1 lambda * u0) 1) as [H|H]; [|discriminate].
+  intros E. injection E as <-. split; [|exact H]. apply Rmult_le_pos; [left; apply c1_pos; exact Hl|tauto].
+Qed.
+
+Theorem exp01_round_range lambda ux uy x : 0 <= ux < 1 -> 0 <= uy < 1 -> one_round lambda ux uy = Accept x -> 0 <= x < 1.
+Proof.
+  intros Hx Hy. unfold one_round. destruct (Rlt_dec ux (exp01_c2 lambda)) as [_|_]; [intros E; injection E as <-; exact Hx|].
+  cbv zeta. destruct (Rlt_dec (1 - ux) (5 / 10 * uy)) as [Hf|Hf].
+  - destruct (accepted_dec lambda (1 - ux) (1 - 5 / 10 * uy)); [|discriminate]. intros E. injection E as <-. lra.
+  - destruct (accepted_dec lambda ux (5 / 10 * uy)); [|discriminate]. intros E. injection E as <-. exact Hx.
+Qed.
